@@ -283,8 +283,265 @@ def correspondence(ctx):
 
 
 GNAMES = list(sfgen.GAUSSIAN_GATES) + list(sfgen.CHANNELS) + list(sfgen.PREPS)
-FNAMES = [x for x in GNAMES if x not in ("ThermalLossChannel", "Thermal")]
-FNG = list(sfgen.GAUSSIAN_GATES) + ["Kgate", "Vgate", "CKgate", "Fock", "Vacuum", "Coherent", "Squeezed"]
+FNAMES = [x for x in GNAMES if x != "ThermalLossChannel"]
+FNG = list(sfgen.GAUSSIAN_GATES) + ["Kgate", "Vgate", "CKgate", "Fock", "Vacuum", "Coherent", "Squeezed", "DisplacedSqueezed", "Thermal", "LossChannel"]
+HBARS = [1.0, 0.5, 3.0, 1.7]
+MESHES = ["rectangular", "rectangular_phase_end", "rectangular_symmetric", "triangular", "rectangular_compact", "triangular_compact", "sun_compact"]
+TWO_MODE = ["BSgate", "MZgate", "S2gate", "CXgate", "CZgate"]
+# pseudo-operations of this module (on top of sfgen's): name -> how make_op builds them
+EXTRA = ("Interferometer", "GaussianTransform", "GaussianDecomp", "MSgate", "Catstate", "GKP", "MeasureFockSel")
+NONGAUSS_PREPS = ("Catstate", "GKP", "Fock")
+
+
+# ------------------------------------------------------------------------------------------
+# builder / runner with pseudo-operations, hbar != 2 and Engine.run(modes=...)
+
+def make_op(name, params, dagger=False, regs=None):
+    if name == "Interferometer":
+        return sfops.Interferometer(np.array(params[0], dtype=float) + 1j * np.array(params[1], dtype=float), mesh=params[2])
+    if name == "GaussianTransform":
+        return sfops.GaussianTransform(np.array(params[0], dtype=float))
+    if name == "GaussianDecomp":
+        return sfops.Gaussian(np.array(params[0], dtype=float), np.array(params[1], dtype=float))
+    if name == "MSgate":
+        return sfops.MSgate(params[0], params[1], r_anc=params[2], eta_anc=params[3], avg=bool(params[4]))
+    if name == "Catstate":
+        return sfops.Catstate(params[0], params[1], params[2], representation=params[3])
+    if name == "GKP":
+        return sfops.GKP(state=[params[0], params[1]], epsilon=params[2])
+    if name == "MeasureFockSel":
+        return sfops.MeasureFock(select=[int(params[0])])
+    return sfgen.make_op(name, params, dagger, regs)
+
+
+def build(spec):
+    """Parameters may be written {"free": name} (a free parameter of the program, bound by Engine.run(args=spec["free"])) or
+    {"par": mode, "mul": m} (m times the outcome of the latest measurement of that mode: feed-forward)."""
+    prog = sf.Program(spec["n"])
+    free = {k: prog.params(k) for k in spec.get("free", {})}
+    with prog.context as q:
+        regs = list(q)
+        for name, params, modes, dagger in spec["cmds"]:
+            params = [free[x["free"]] if isinstance(x, dict) and "free" in x else x for x in params]
+            if name == "New":
+                (r,) = sfops.New(1)
+                regs.append(r)
+            elif name == "Del":
+                sfops.Del | regs[modes[0]]
+            else:
+                make_op(name, params, dagger, regs) | tuple(regs[m] for m in modes)
+    return prog
+
+
+def scale_hbar(spec, h):
+    """The same physical program written for the convention hbar = h: only the parameters that are quadrature values
+    (documented: Xgate / Zgate amounts, the homodyne outcome, the moments handed to Gaussian) carry units of sqrt(hbar)."""
+    if h == 2:
+        return spec
+    f = math.sqrt(h / 2)
+    cmds = []
+    for name, params, modes, dagger in spec["cmds"]:
+        if name in ("Xgate", "Zgate"):
+            params = [params[0] * f]
+        elif name == "MeasureHomodyneSel":
+            params = [params[0], params[1] * f]
+        elif name in ("GaussianNoDecomp", "GaussianDecomp"):
+            params = [(np.array(params[0], dtype=float) * (h / 2)).tolist(), (np.array(params[1], dtype=float) * f).tolist()]
+        cmds.append([name, params, modes, dagger])
+    return dict(spec, cmds=cmds)
+
+
+def run_x(spec, backend, cutoff=8, hbar=2.0, modes=None, full=False):
+    """Run `spec` (written in hbar = 2 units) under the global convention sf.hbar = hbar; `modes` is Engine.run's option."""
+    old = sf.hbar
+    sf.hbar = hbar
+    try:
+        prog = build(scale_hbar(spec, hbar))
+        if backend in ("gaussian", "bosonic"):
+            eng = sf.Engine(backend)
+        else:
+            eng = sf.Engine("fock", backend_options={"cutoff_dim": cutoff, "pure": backend == "fock-pure"})
+        kw = {} if modes is None else {"modes": list(modes)}
+        if spec.get("free"):
+            kw["args"] = dict(spec["free"])
+        res = eng.run(prog, **kw)
+        return res if full else res.state
+    finally:
+        sf.hbar = old
+
+
+def resolve(spec):
+    """The numeric program a symbolic one stands for (free parameters bound, measured parameters replaced by the post-selected value)."""
+    if not spec.get("free") and not any(isinstance(x, dict) for c in spec["cmds"] for x in c[1]):
+        return spec
+    last, cmds = {}, []
+    for name, params, modes, dagger in spec["cmds"]:
+        ps = []
+        for x in params:
+            if isinstance(x, dict) and "free" in x:
+                x = spec["free"][x["free"]]
+            elif isinstance(x, dict) and "par" in x:
+                x = x.get("mul", 1.0) * last[x["par"]] + x.get("add", 0.0)
+            ps.append(x)
+        if name == "MeasureHomodyneSel":
+            last[modes[0]] = ps[1]
+        cmds.append([name, ps, modes, dagger])
+    return {k: v for k, v in dict(spec, cmds=cmds).items() if k != "free"}
+
+
+SCALAR_OPS = set(sfgen.GAUSSIAN_GATES) | set(sfgen.CHANNELS) | set(sfgen.PREPS)
+
+
+def symbolic_variant(rng, spec):
+    """Same program with up to 3 numeric parameters turned into free parameters, and - after a post-selected homodyne measurement -
+    one more gate whose first parameter is fed forward from the measured mode."""
+    spec = dict(spec, cmds=[[c[0], list(c[1]), list(c[2]), c[3]] for c in spec["cmds"]], free={})
+    slots = [(i, j) for i, c in enumerate(spec["cmds"]) if c[0] in SCALAR_OPS for j, x in enumerate(c[1]) if isinstance(x, float)]
+    for i, j in rng.sample(slots, min(len(slots), rng.randint(1, 3))):
+        name = "x%d_%d" % (i, j)
+        spec["free"][name] = spec["cmds"][i][1][j]
+        spec["cmds"][i][1][j] = {"free": name}
+    meas = [i for i, c in enumerate(spec["cmds"]) if c[0] == "MeasureHomodyneSel"]
+    if meas and spec["n"] >= 2:
+        i = rng.choice(meas)
+        a = spec["cmds"][i][2][0]
+        later_meas = any(c[0] in sfgen.MEASURE_SEL and c[2][0] == a for c in spec["cmds"][i + 1:])
+        if not later_meas:
+            b = rng.choice([m for m in range(spec["n"]) if m != a])
+            gname = rng.choice(["Dgate", "Xgate", "Zgate", "Sgate", "Rgate", "BSgate"])
+            c = sfgen.random_cmd(rng, spec["n"], [gname], dagger_prob=0.3)
+            c[2] = [b] if gname != "BSgate" else [b, a]
+            c[1][0] = {"par": a, "mul": round(rng.uniform(-1.5, 1.5), 2)}
+            spec["cmds"].insert(rng.randint(i + 1, len(spec["cmds"])), c)
+    return spec
+
+
+def obs_h(state, h=2.0):
+    """(means, cov) of a Gaussian / bosonic state object normalised to hbar = 2 units, xxpp order."""
+    mu, V = bc.gauss_obs(state)
+    return mu / math.sqrt(h / 2), V / (h / 2)
+
+
+def ptrace_order(dm, n, modes):
+    """Reduced density tensor (i,j per mode) of the listed modes, in the listed order, from the full tensor (i0,j0,i1,j1,...)."""
+    letters = "abcdefghijklmnopqrstuvwxyz"
+    sub, out = "", {}
+    for k in range(n):
+        if k in modes:
+            sub += letters[2 * k] + letters[2 * k + 1]
+            out[k] = letters[2 * k] + letters[2 * k + 1]
+        else:
+            sub += letters[2 * k] * 2
+    return np.einsum(sub + "->" + "".join(out[m] for m in modes), dm)
+
+
+def fock_moments(dm, n, c):
+    """means and covariance (xxpp, hbar = 2) of a Fock density tensor (i0,j0,i1,j1,...), by ladder operators."""
+    a = np.diag(np.sqrt(np.arange(1, c)), 1).astype(complex)
+    q = [a + a.T] * n + [-1j * (a - a.T)] * n
+    letters = "abcdefghijklmnopqrstuvwxyz"
+    idx = "".join(letters[2 * k] + letters[2 * k + 1] for k in range(n))
+
+    def ev(om):
+        operands, sub = [dm], [idx]
+        for k in range(n):
+            if k in om:
+                operands.append(om[k])
+                sub.append(letters[2 * k + 1] + letters[2 * k])
+            else:
+                operands.append(np.ones(c))
+                sub.append(letters[2 * k])
+                sub[0] = sub[0].replace(letters[2 * k + 1], letters[2 * k])
+        return complex(np.einsum(",".join(sub) + "->", *operands))
+    tr = ev({}).real
+    mu = np.array([ev({i % n: q[i]}).real for i in range(2 * n)]) / tr
+    V = np.zeros((2 * n, 2 * n))
+    for i in range(2 * n):
+        for j in range(i, 2 * n):
+            if i % n == j % n:
+                v = ev({i % n: (q[i] @ q[j] + q[j] @ q[i]) / 2})
+            else:
+                v = ev({i % n: q[i], j % n: q[j]})
+            V[i, j] = V[j, i] = v.real / tr - mu[i] * mu[j]
+    return mu, V
+
+
+# ------------------------------------------------------------------------------------------
+# generators of the extra families
+
+def _np_seed(rng):
+    np.random.seed(rng.randrange(2 ** 31))
+
+
+def interferometer_cmd(rng, n, meshes=MESHES):
+    """Interferometer(U, mesh) on 2..4 modes listed in a random order; U Haar random, a phase screen, or a permutation."""
+    from thewalrus.random import random_interferometer
+    k = rng.randint(2, min(4, n))
+    _np_seed(rng)
+    kind = rng.random()
+    if kind < 0.12:
+        U = np.diag(np.exp(1j * np.random.uniform(-math.pi, math.pi, size=k)))
+    elif kind < 0.24:
+        U = np.eye(k)[np.random.permutation(k)].astype(complex)
+    else:
+        U = random_interferometer(k)
+    mesh = rng.choice([m for m in meshes if k >= 3 or m != "sun_compact"])   # sun_compact: documented for >= 3 x 3 only
+    return ["Interferometer", [U.real.tolist(), U.imag.tolist(), mesh], rng.sample(range(n), k), False]
+
+
+def gaussian_transform_cmd(rng, n, scale=0.5):
+    from thewalrus.random import random_symplectic
+    k = rng.randint(1, min(3, n))
+    _np_seed(rng)
+    S = random_symplectic(k, passive=rng.random() < 0.25, scale=scale)
+    return ["GaussianTransform", [S.tolist()], rng.sample(range(n), k), False]
+
+
+def gaussian_prep_cmd(rng, n, decomp=False, weak=False):
+    """Gaussian(V, r, decomp=...) on 1..3 modes listed in a random (possibly cyclic) order; with decomp=True also the structured
+    covariances that ops.Gaussian._decompose treats separately (diagonal / block-diagonal pure, thermal, diagonal mixed)."""
+    from thewalrus.random import random_covariance
+    k = rng.randint(1, min(3, n))
+    modes = rng.sample(range(n), k)
+    _np_seed(rng)
+    sq = 0.3 if weak else 0.8
+    kind = rng.choice(["random", "random", "diag", "blockdiag", "thermal", "mixeddiag"]) if decomp else "random"
+    if kind == "random":
+        if weak:
+            from thewalrus.random import random_symplectic
+            S = random_symplectic(k, scale=0.2)
+            V = S @ np.diag([1 + rng.choice([0, 0, round(rng.uniform(0, 0.3), 2)])] * (2 * k)) @ S.T
+        else:
+            V = random_covariance(k, hbar=2, pure=rng.random() < 0.5)
+    elif kind == "diag":
+        r = np.array([rng.choice([0.0, round(rng.uniform(-sq, sq), 3)]) for _ in range(k)])
+        V = np.diag(np.concatenate([np.exp(-2 * r), np.exp(2 * r)]))
+    elif kind == "blockdiag":
+        V = np.zeros((2 * k, 2 * k))
+        for i in range(k):
+            S2 = _sq(rng.choice([0.0, round(rng.uniform(0.05, sq), 3)]), round(rng.uniform(-math.pi, math.pi), 3))
+            V[np.ix_([i, i + k], [i, i + k])] = S2 @ S2.T
+    elif kind == "thermal":
+        nb = np.array([rng.choice([0.0, round(rng.uniform(0.05, 0.3 if weak else 1.0), 3)]) for _ in range(k)])
+        V = np.diag(np.concatenate([2 * nb + 1, 2 * nb + 1]))
+    else:
+        V = np.diag([round(rng.uniform(1.0, 1.4 if weak else 2.5), 3) for _ in range(2 * k)])
+    V = (V + V.T) / 2
+    m = 0.4 if weak else 1.0
+    r = [rng.choice([0.0, round(rng.uniform(-m, m), 3)]) for _ in range(2 * k)]
+    return ["GaussianDecomp" if decomp else "GaussianNoDecomp", [V.tolist(), r], modes, False]
+
+
+def msgate_cmd(rng, n, kind="avg"):
+    r = round(rng.uniform(0.1, 0.7), 3) * rng.choice([1, 1, -1])
+    phi = rng.choice([0.0, math.pi / 2, math.pi, round(rng.uniform(-math.pi, math.pi), 3)])
+    if kind == "avg":
+        pr = [r, phi, round(rng.uniform(0.3, 1.5), 3), rng.choice([1.0, round(rng.uniform(0.5, 0.95), 3)]), True]
+    elif kind == "limit":
+        pr = [r, phi, 9.0, 1.0, True]
+    else:
+        pr = [r, phi, 7.0, 1.0, False]
+    return ["MSgate", pr, [rng.randrange(n)], False]
 
 
 def nontrivial(spec):
@@ -302,11 +559,59 @@ def sig_ops(spec):
     return "+".join(sorted(set(nm(c) for c in spec["cmds"])))
 
 
+def sig_cfg(hbar=2.0, modes=None):
+    return ("@hbar" if hbar != 2 else "") + ("@modes" if modes is not None else "")
+
+
 def search(ctx):
+    search_gbr(ctx)
+    search_fock_pm(ctx)
+    search_gauss_fock(ctx)
+    search_layout_sweep(ctx)
+    search_history_sweep(ctx)
+    search_modes_sweep(ctx)
+    search_bosonic_fock(ctx)
+    search_msgate(ctx)
+    search_reset(ctx)
+
+
+# --- 1. gaussian vs bosonic vs reference ----------------------------------------------------
+
+def gbr_eval(spec, hbar=2.0, modes=None):
+    """(gaussian, bosonic, reference, tol) as (means, cov) in hbar = 2 units; with `modes`, the reduced state Engine.run(modes=...)
+    returns: the gaussian backend in the requested order, the bosonic backend (documented) in ascending order."""
+    r = reference(resolve(spec))
+    g = obs_h(run_x(spec, "gaussian", hbar=hbar, modes=modes), hbar)
+    b = None if gauss_only(spec) else obs_h(run_x(spec, "bosonic", hbar=hbar, modes=modes), hbar)
+    tol = (2e-5 if any(c[0] in sfgen.MEASURE_SEL for c in spec["cmds"]) else 1e-8) * max(1.0, float(np.abs(r[1]).max()))
+    if modes is None:
+        rg = rb = r
+    else:
+        rg, rb = bc.reduced_gauss(r[0], r[1], list(modes)), bc.reduced_gauss(r[0], r[1], sorted(modes))
+    return g, b, rg, rb, tol
+
+
+def gbr_flags(spec, hbar=2.0, modes=None):
+    g, b, rg, rb, tol = gbr_eval(spec, hbar, modes)
+    gr = cmp_gauss(g, rg, tol)
+    br = b is not None and cmp_gauss(b, rb, tol)
+    gb = b is not None and modes in (None, sorted(modes or [])) and cmp_gauss(g, b, tol)
+    return gb, gr, br
+
+
+def any_diff(spec, hbar=2.0, modes=None):
+    return any(gbr_flags(spec, hbar, modes))
+
+
+def gauss_only(spec):
+    # not accepted by the bosonic compiler: compared with the reference (and the Fock simulator) only
+    return any(c[0] in ("PassiveChannel", "Interferometer", "GaussianTransform") for c in spec["cmds"])
+
+
+def search_gbr(ctx):
     rng = ctx.rng
-    # 1. gaussian vs bosonic vs reference
-    for it in range(ctx.budget(150, 1500)):
-        n = rng.randint(1, 4)
+    for it in range(ctx.budget(400, 3000)):
+        n = rng.choice([1, 2, 2, 3, 3, 4, 4, 5, 6])
         if it % 3 == 2:
             # histories in which modes are created and deleted along the way
             spec = sfgen.random_history_spec(rng, GNAMES, max_total=4)
@@ -324,115 +629,586 @@ def search(ctx):
         if "live" not in spec and rng.random() < 0.15:
             # PassiveChannel exists on the Gaussian backend only: gaussian vs reference
             spec["cmds"].insert(rng.randint(0, len(spec["cmds"])), sfgen.random_cmd(rng, spec["n"], ["PassiveChannel"]))
-        meas = any(c[0] in sfgen.MEASURE_SEL for c in spec["cmds"])
-        data = {"check": "gbr", "spec": spec}
+        if "live" not in spec and rng.random() < 0.3:
+            # multi-mode operations every backend takes through ops.py's decompositions
+            pre = sfgen.entangling_prefix(rng, spec["n"]) if rng.random() < 0.5 else []
+            ex = rng.choice(["I", "I", "T", "G"])
+            if ex == "I" and spec["n"] >= 2:
+                c = interferometer_cmd(rng, spec["n"])
+            elif ex == "T":
+                c = gaussian_transform_cmd(rng, spec["n"])
+            else:
+                c = gaussian_prep_cmd(rng, spec["n"], decomp=True)
+            spec["cmds"] = pre + spec["cmds"]
+            spec["cmds"].insert(rng.randint(len(pre), len(spec["cmds"])), c)
+        tiny_params(rng, spec)
+        hbar = rng.choice(HBARS) if it % 4 == 1 else 2.0
+        modes = None
+        if "live" not in spec and spec["n"] >= 2 and it % 5 == 3:
+            modes = rng.sample(range(spec["n"]), rng.randint(1, spec["n"]))
+        if "live" not in spec and hbar == 2 and it % 6 in (0, 5):
+            # the same program with free parameters (bound by Engine.run(args=...)) and parameters fed forward from a measurement
+            spec = symbolic_variant(rng, spec)
+        data = {"check": "gbr", "spec": spec, "hbar": hbar, "modes": modes}
         try:
-            g = bc.gauss_obs(bc.run(spec, "gaussian"))
-            r = reference(spec)
-            b = r if gauss_only(spec) else bc.gauss_obs(bc.run(spec, "bosonic"))
+            gb, gr, br = gbr_flags(spec, hbar, modes)
         except Exception as e:
-            ctx.counterexample("gbr:raises:%s" % type(e).__name__, "running %s raised %r" % (spec, e), data)
+            ctx.counterexample("gbr:raises:%s%s" % (type(e).__name__, sig_cfg(hbar, modes)), "running %s (hbar %s, modes %s) raised %r" % (spec, hbar, modes, e), data)
             continue
-        ctx.case(spec, nontrivial=nontrivial(spec), bucket="gauss-bosonic-ref")
+        ctx.case({"spec": spec, "hbar": hbar, "modes": modes} if (hbar != 2 or modes) else spec, nontrivial=nontrivial(spec),
+                 bucket="gauss-bosonic-ref" + sig_cfg(hbar, modes))
         # homodyne is simulated with a finitely squeezed (eps = 2e-4) projector; errors are relative to the size of the covariance
         # (false alarm of seed 0 after the generator change: |V| ~ 31 from a strongly squeezed Gaussian(V, r) gave 2.7e-5 absolute)
-        tol = (2e-5 if meas else 1e-8) * max(1.0, float(np.abs(r[1]).max()))
-        gb, gr, br = cmp_gauss(g, b, tol), cmp_gauss(g, r, tol), cmp_gauss(b, r, tol)
         if gb or gr or br:
-            spec1 = shrink(spec, lambda s: any_diff(s))
-            data = {"check": "gbr", "spec": spec1}
-            who = "gaussian" if (gb and gr and not br) else "bosonic" if (gb and br and not gr) else "reference-or-frontend" if (gr and br and not gb) else "several"
-            ctx.counterexample("diff:%s:%s" % (who, sig_ops(spec1)),
-                               "gaussian / bosonic / phase-space reference disagree (g-b %s, g-ref %s, b-ref %s) on %s" % (gb, gr, br, spec1), data)
-    # 2. fock pure vs mixed
-    for _ in range(ctx.budget(30, 300)):
-        n = rng.randint(1, 3)
-        cmds = [c for c in bc.weak_prefix(rng, n) if c[0] != "ThermalLossChannel"] if rng.random() < 0.5 else []
-        cmds += [bc.weak_cmd(rng, n, FNG) for _ in range(rng.randint(1, 4))]
-        spec = {"n": n, "cmds": cmds}
-        data = {"check": "fock-pm", "spec": spec}
+            cfg = ""
+            if hbar != 2:
+                if any_diff_safe(spec, 2.0, modes):
+                    hbar = 2.0        # also fails in the default convention: report it there
+                else:
+                    cfg += "@hbar"    # only the convention hbar != 2 breaks it
+            if modes is not None:
+                if any_diff_safe(spec, hbar, None):
+                    modes = None
+                else:
+                    cfg += "@modes"   # only the reduced state requested through Engine.run(modes=...) breaks it
+            spec1 = shrink(spec, lambda s: any_diff(s, hbar, modes))
+            data = {"check": "gbr", "spec": spec1, "hbar": hbar, "modes": modes}
+            try:
+                gb, gr, br = gbr_flags(spec1, hbar, modes)
+            except Exception:
+                pass
+            who = "gaussian" if (gr and not br) else "bosonic" if (br and not gr) else "reference-or-frontend" if (gr and br and not gb) else "several"
+            ctx.counterexample("diff:%s%s:%s" % (who, cfg, sig_ops(spec1)),
+                               "gaussian / bosonic / phase-space reference disagree (g-b %s, g-ref %s, b-ref %s; hbar %s, run(modes=%s)) on %s" % (gb, gr, br, hbar, modes, spec1), data)
+
+
+def tiny_params(rng, spec, prob=0.04):
+    """Gate.apply skips a gate whose first parameter IS zero: parameters that are merely small must still be applied."""
+    for c in spec["cmds"]:
+        if c[0] in sfgen.GAUSSIAN_GATES and c[1] and isinstance(c[1][0], float) and rng.random() < prob:
+            c[1][0] = rng.choice([1e-4, -3e-5, 2e-6, -1e-3])
+
+
+def any_diff_safe(spec, hbar, modes):
+    try:
+        return any_diff(spec, hbar, modes)
+    except Exception:
+        return True
+
+
+# --- 2. fock pure vs mixed --------------------------------------------------------------------
+
+def fock_pm_diff(spec, cutoff=7, hbar=2.0, modes=None):
+    p = run_x(spec, "fock-pure", cutoff, hbar, modes)
+    m = run_x(spec, "fock-mixed", cutoff, hbar, modes)
+    d = float(np.abs(p.dm() - m.dm()).max())
+    if modes is not None:
+        # the reduced state Engine.run(modes=...) hands out is the partial trace of the full one, in the requested order
+        full = run_x(spec, "fock-mixed", cutoff, hbar)
+        ref = ptrace_order(full.dm(), full.num_modes, list(modes))
+        d = max(d, float(np.abs(p.dm() - ref).max()), float(np.abs(m.dm() - ref).max()))
+    return d
+
+
+def fock_pm_spec(rng):
+    n = rng.randint(1, 3)
+    if rng.random() < 0.25:
+        spec = sfgen.random_history_spec(rng, FNG, n0=rng.randint(1, 2), ncmds=rng.randint(2, 6), max_total=3, cmd_fn=bc.weak_cmd)
+        spec["cmds"] = [c for c in bc.weak_prefix(rng, spec["n"]) if c[0] != "ThermalLossChannel"] + spec["cmds"]
+        return spec
+    cmds = [c for c in bc.weak_prefix(rng, n) if c[0] != "ThermalLossChannel"] if rng.random() < 0.5 else []
+    cmds += [bc.weak_cmd(rng, n, FNG) for _ in range(rng.randint(1, 4))]
+    r = rng.random()
+    if r < 0.15:
+        cmds.insert(rng.randint(0, len(cmds)), ["Catstate", [round(rng.uniform(0.2, 0.7), 3), round(rng.uniform(-2, 2), 3), rng.choice([0, 1, 0.5]), "complex"], [rng.randrange(n)], False])
+    elif r < 0.3:
+        cmds.insert(rng.randint(1, len(cmds)), ["MeasureHomodyneSel", [round(rng.uniform(-2, 2), 3), round(rng.uniform(-0.4, 0.4), 3)], [rng.randrange(n)], False])
+    elif r < 0.4:
+        cmds.insert(rng.randint(1, len(cmds)), ["MeasureFockSel", [rng.choice([0, 0, 1])], [rng.randrange(n)], False])
+    return {"n": n, "cmds": cmds}
+
+
+def search_fock_pm(ctx):
+    rng = ctx.rng
+    for it in range(ctx.budget(40, 400)):
+        spec = fock_pm_spec(rng)
+        cutoff = rng.choice([5, 6, 7, 7, 8, 9]) if spec["n"] + sum(c[0] == "New" for c in spec["cmds"]) <= 2 else rng.choice([4, 5, 6])
+        hbar = rng.choice(HBARS) if it % 4 == 1 else 2.0
+        modes = None
+        if "live" not in spec and spec["n"] >= 2 and it % 3 == 2:
+            modes = rng.sample(range(spec["n"]), rng.randint(1, spec["n"]))
+        data = {"check": "fock-pm", "spec": spec, "cutoff": cutoff, "hbar": hbar, "modes": modes}
         try:
-            d = fock_pm_diff(spec)
+            d = fock_pm_diff(spec, cutoff, hbar, modes)
+        except ZeroDivisionError:
+            continue   # post-selected on an outcome of probability zero
         except Exception as e:
-            ctx.counterexample("fock-pm:raises:%s" % type(e).__name__, "running %s raised %r" % (spec, e), data)
+            ctx.counterexample("fock-pm:raises:%s" % type(e).__name__, "running %s raised %r" % (data, e), data)
             continue
-        ctx.case(spec, nontrivial=nontrivial(spec), bucket="fock-pure-mixed")
+        ctx.case(data, nontrivial=nontrivial(spec), bucket="fock-pure-mixed" + sig_cfg(hbar, modes))
         if d > 1e-8:
-            spec1 = shrink(spec, lambda s: fock_pm_diff(s) > 1e-8)
-            ctx.counterexample("diff:fock-pure-vs-mixed:%s" % sig_ops(spec1), "fock pure and mixed representations disagree (max |delta dm| = %.3g) on %s" % (d, spec1), {"check": "fock-pm", "spec": spec1})
-    # 3. gaussian vs fock (mixed and pure), weak states
-    for _ in range(ctx.budget(24, 240)):
-        n = rng.randint(1, 3)
-        cmds = [c for c in bc.weak_prefix(rng, n) if c[0] != "ThermalLossChannel"]
-        cmds += [bc.weak_cmd(rng, n, FNAMES) for _ in range(rng.randint(1, 3))]
-        spec = {"n": n, "cmds": cmds}
-        backend = rng.choice(["fock-pure", "fock-mixed"])
-        data = {"check": "gauss-fock", "backend": backend, "spec": spec}
+            def pred(s):
+                return fock_pm_diff(s, cutoff, hbar, modes) > 1e-8
+            spec1 = shrink(spec, pred)
+            cfg = sig_cfg(2.0, modes) if modes is not None and fock_pm_diff(spec1, cutoff, hbar, None) <= 1e-8 else ""
+            ctx.counterexample("diff:fock-pure-vs-mixed%s:%s" % (cfg, sig_ops(spec1)), "fock pure and mixed representations%s disagree (max |delta dm| = %.3g) on %s (cutoff %d, hbar %s, run(modes=%s))"
+                               % (" / the partial trace of the full state" if modes else "", d, spec1, cutoff, hbar, modes), dict(data, spec=spec1))
+
+
+# --- 3. gaussian vs fock (mixed and pure), weak states ---------------------------------------
+
+def fock_tol(f, deficit_ref=None, cap0=2e-4):
+    """Allowed deviation of a Fock state with trace deficit 1 - tr: 1e-6 + 4 sqrt(deficit). The deficit counts as truncation error only
+    as far as truncation can explain it: at most 20 x the weight the exact state has beyond the cutoff (deficit_ref) + 2e-4 for the
+    intermediate states (measured on the unchanged code: <= 3e-5 when the final state fits) - a simulator that loses norm for another
+    reason must not buy itself tolerance."""
+    deficit = max(0.0, 1.0 - float(np.real(f.trace())))
+    if deficit_ref is not None:
+        deficit = min(deficit, 20 * max(0.0, deficit_ref) + cap0)
+    else:
+        deficit = min(deficit, cap0)
+    return 1e-6 + 4.0 * math.sqrt(deficit)
+
+
+def gauss_fock_diff(spec, backend, cutoff=8, hbar=2.0):
+    from thewalrus import quantum as twq
+    f = run_x(spec, backend, cutoff, hbar)
+    g = run_x(spec, "gaussian", hbar=hbar)
+    n = f.num_modes
+    # exact matrix elements of the Gaussian state inside the cutoff (not renormalised): what a perfect truncated simulation would hold
+    dg = np.asarray(twq.density_matrix(np.asarray(g.means()), np.asarray(g.cov()), hbar=hbar, normalize=False, cutoff=cutoff))
+    tr_g = float(np.einsum("".join(ch * 2 for ch in "abcdefgh"[:n]), dg).real)
+    tol = fock_tol(f, 1.0 - tr_g)
+    if any(c[0] == "MeasureHomodyneSel" for c in spec["cmds"]):
+        # the Fock simulator projects on a truncated quadrature eigenstate and renormalises: the error no longer shows in the trace
+        # (measured on the unchanged code: 2e-3 at cutoff 8, 1e-4 at 12, 7e-6 at 16 for these weak states)
+        tol += 6e-4 * (14.0 / cutoff) ** 8
+        dg = dg / tr_g
+    return float(np.abs(f.dm() - dg).max()), tol
+
+
+def gauss_fock_spec(rng):
+    n = rng.randint(1, 3)
+    r = rng.random()
+    if r < 0.2:
+        spec = sfgen.random_history_spec(rng, FNAMES, n0=rng.randint(1, 2), ncmds=rng.randint(2, 6), max_total=3, cmd_fn=bc.weak_cmd)
+        spec["cmds"] = [c for c in bc.weak_prefix(rng, spec["n"]) if c[0] != "ThermalLossChannel"] + spec["cmds"]
+        return spec, 8
+    cmds = [c for c in bc.weak_prefix(rng, n) if c[0] != "ThermalLossChannel"]
+    cmds += [bc.weak_cmd(rng, n, FNAMES) for _ in range(rng.randint(1, 3))]
+    if r < 0.32 and n >= 2:
+        cmds.insert(rng.randint(len(cmds) - 1, len(cmds)), interferometer_cmd(rng, n))
+    elif r < 0.4:
+        cmds.insert(rng.randint(len(cmds) - 1, len(cmds)), gaussian_transform_cmd(rng, n, scale=0.15))
+    elif r < 0.5:
+        cmds.insert(rng.randint(len(cmds) - 1, len(cmds)), gaussian_prep_cmd(rng, n, decomp=True, weak=True))   # the fock compiler takes Gaussian only through its decomposition
+    elif r < 0.62 and n <= 2:
+        cmds.insert(rng.randint(len(cmds) - 1, len(cmds)), ["MeasureHomodyneSel", [round(rng.uniform(-2, 2), 3), round(rng.uniform(-0.4, 0.4), 3)], [rng.randrange(n)], False])
+        return {"n": n, "cmds": cmds}, 14
+    return {"n": n, "cmds": cmds}, 8
+
+
+def report_gauss_fock(ctx, spec, backend, cutoff, hbar, d, tol, tag=""):
+    def pred(s):
+        dd, tt = gauss_fock_diff(s, backend, cutoff, hbar)
+        return dd > tt
+    if hbar != 2:
         try:
-            d, tol = gauss_fock_diff(spec, backend)
+            if pred_h2(spec, backend, cutoff):
+                hbar = 2.0
+        except Exception:
+            pass
+    spec1 = shrink(spec, pred)
+    ctx.counterexample("diff:gaussian-vs-fock%s:%s" % (sig_cfg(hbar), sig_ops(spec1)), "gaussian and %s disagree beyond truncation (max |delta dm| = %.3g, tol %.3g; cutoff %d, hbar %s) on %s"
+                       % (backend, d, tol, cutoff, hbar, spec1), {"check": "gauss-fock", "backend": backend, "spec": spec1, "cutoff": cutoff, "hbar": hbar})
+
+
+def pred_h2(spec, backend, cutoff):
+    dd, tt = gauss_fock_diff(spec, backend, cutoff, 2.0)
+    return dd > tt
+
+
+def search_gauss_fock(ctx):
+    rng = ctx.rng
+    for it in range(ctx.budget(24, 300)):
+        spec, cutoff = gauss_fock_spec(rng)
+        backend = rng.choice(["fock-pure", "fock-mixed"])
+        hbar = rng.choice(HBARS) if it % 4 == 1 else 2.0
+        if hbar == 2 and "live" not in spec and it % 4 == 3:
+            spec = symbolic_variant(rng, spec)
+        data = {"check": "gauss-fock", "backend": backend, "spec": spec, "cutoff": cutoff, "hbar": hbar}
+        try:
+            d, tol = gauss_fock_diff(spec, backend, cutoff, hbar)
         except Exception as e:
-            ctx.counterexample("gauss-fock:raises:%s" % type(e).__name__, "running %s raised %r" % (spec, e), data)
+            ctx.counterexample("gauss-fock:raises:%s" % type(e).__name__, "running %s raised %r" % (data, e), data)
             continue
-        ctx.case({"backend": backend, "spec": spec}, nontrivial=nontrivial(spec), bucket="gauss-" + backend)
+        ctx.case(data, nontrivial=nontrivial(spec), bucket="gauss-" + backend + sig_cfg(hbar))
+        if d > tol:
+            report_gauss_fock(ctx, spec, backend, cutoff, hbar, d, tol)
+
+
+# --- 4. deterministic layout sweep: every preparation / channel on every mode, every two-mode gate on every ordered pair of a
+#        correlated 3-mode register, gaussian vs fock-pure vs fock-mixed -----------------------------------------------------------
+
+def layout_specs(rng):
+    n = 3
+    prefix = [c for c in bc.weak_prefix(rng, n) if c[0] != "ThermalLossChannel"]
+
+    def one(name, modes, nn=n):
+        while True:
+            c = bc.weak_cmd(rng, nn, [name])
+            if not (name in sfgen.GAUSSIAN_GATES and c[1] and c[1][0] == 0):
+                break
+        c[2], c[3] = list(modes), False
+        return c
+    out = []
+    for name in TWO_MODE:
+        for a in range(n):
+            for b in range(n):
+                if a != b:
+                    out.append({"n": n, "cmds": prefix + [one(name, [a, b])]})
+    for name in list(sfgen.PREPS) + ["LossChannel"]:
+        for a in range(n):
+            out.append({"n": n, "cmds": prefix + [one(name, [a])]})
+    for a in range(n):
+        out.append({"n": n, "cmds": prefix + [["LossChannel", [0.0], [a], False]]})
+    return out
+
+
+def measure_specs(rng):
+    """post-selected homodyne measurement of each mode of a correlated 2-mode register (cutoff 14 on the Fock side)"""
+    prefix = [c for c in bc.weak_prefix(rng, 2) if c[0] != "ThermalLossChannel"]
+    return [{"n": 2, "cmds": prefix + [["MeasureHomodyneSel", [round(rng.uniform(-2, 2), 3), round(rng.uniform(-0.4, 0.4), 3)], [a], False]]} for a in range(2)]
+
+
+def search_layout_sweep(ctx):
+    rng = ctx.rng
+    specs = [(s, 7) for s in layout_specs(rng)] + [(s, 14) for s in measure_specs(rng)]
+    for spec, cutoff in specs:
+        # a preparation / channel turns the state into a density matrix anyway: the circuit that starts pure covers both code paths
+        for backend in (("fock-pure", "fock-mixed") if len(spec["cmds"][-1][2]) == 2 or cutoff > 7 else ("fock-pure",)):
+            data = {"check": "gauss-fock", "backend": backend, "spec": spec, "cutoff": cutoff, "hbar": 2.0}
+            try:
+                d, tol = gauss_fock_diff(spec, backend, cutoff)
+            except Exception as e:
+                ctx.counterexample("gauss-fock:raises:%s" % type(e).__name__, "running %s raised %r" % (data, e), data)
+                continue
+            ctx.case(data, nontrivial=nontrivial(spec), bucket="layout-sweep-" + backend)
+            if d > tol:
+                report_gauss_fock(ctx, spec, backend, cutoff, 2.0, d, tol)
+
+
+# --- 4b. deterministic New / Del histories on a correlated 3-mode register: all four simulators + reference ------------------------
+
+def history_specs(rng):
+    n = 3
+    prefix = [c for c in bc.weak_prefix(rng, n) if c[0] != "ThermalLossChannel"]
+
+    def gate(name, modes):
+        while True:
+            c = bc.weak_cmd(rng, 2, [name])
+            if not (c[1] and c[1][0] == 0):
+                break
+        c[2], c[3] = list(modes), False
+        return c
+    out = []
+    for a in range(n):
+        rest = [m for m in range(n) if m != a]
+        for pair in (rest, rest[::-1]):
+            for name in TWO_MODE:
+                out.append({"n": n, "cmds": prefix + [["Del", [], [a], False], gate(name, pair)], "live": rest})
+        for b in rest:
+            c = [m for m in rest if m != b][0]
+            out.append({"n": n, "cmds": prefix + [["Del", [], [a], False], ["Del", [], [b], False], gate("Dgate", [c])[:2] + [[c], False]], "live": [c]})
+        for i, o in enumerate(rest):
+            for k, name in enumerate(["BSgate", "S2gate"]):
+                pair = [3, o] if (i + k) % 2 == 0 else [o, 3]
+                out.append({"n": n, "cmds": prefix + [["Del", [], [a], False], ["New", [], [3], False], gate(name, pair), gate("CXgate", pair[::-1])], "live": rest + [3]})
+        out.append({"n": n, "cmds": prefix + [["New", [], [3], False], ["New", [], [4], False], ["Del", [], [a], False], gate("BSgate", [4, 3]), gate("S2gate", [3, rest[0]])],
+                    "live": rest + [3, 4]})
+    # two deletions that leave two modes: allocate a fourth mode, delete a then b, entangle the survivors
+    k = 0
+    for a in range(4):
+        for b in range(4):
+            if a != b:
+                rest = [m for m in range(4) if m not in (a, b)]
+                pair = rest if k % 2 == 0 else rest[::-1]
+                out.append({"n": n, "cmds": prefix + [["New", [], [3], False], gate("BSgate", [3, 1]), ["Del", [], [a], False], ["Del", [], [b], False], gate(["BSgate", "S2gate", "CXgate"][k % 3], pair)],
+                            "live": rest})
+                k += 1
+    return out
+
+
+def search_history_sweep(ctx):
+    rng = ctx.rng
+    cutoff = 6
+    for i, spec in enumerate(history_specs(rng)):
+        data = {"check": "gbr", "spec": spec, "hbar": 2.0, "modes": None}
+        try:
+            gb, gr, br = gbr_flags(spec)
+        except Exception as e:
+            ctx.counterexample("gbr:raises:%s:history" % type(e).__name__, "running %s raised %r" % (spec, e), data)
+            gb = gr = br = False
+        if gb or gr or br:
+            who = "gaussian" if (gr and not br) else "bosonic" if (br and not gr) else "reference-or-frontend" if (gr and br and not gb) else "several"
+            ctx.counterexample("diff:%s:history:%s" % (who, sig_ops(spec)), "gaussian / bosonic / phase-space reference disagree (g-b %s, g-ref %s, b-ref %s) on %s" % (gb, gr, br, spec), data)
+        if len(spec["live"]) > 3:
+            continue
+        backend = ["fock-pure", "fock-mixed"][i % 2]
+        if spec["cmds"][len(spec["cmds"]) - 5][0] == "New":
+            backend, cutoff = "fock-pure", 5    # four modes before the deletions: stay with the 4-index ket
+        data = {"check": "gauss-fock", "backend": backend, "spec": spec, "cutoff": cutoff, "hbar": 2.0}
+        try:
+            d, tol = gauss_fock_diff(spec, backend, cutoff)
+        except Exception as e:
+            ctx.counterexample("gauss-fock:raises:%s:history" % type(e).__name__, "running %s raised %r" % (data, e), data)
+            continue
+        ctx.case(data, nontrivial=True, bucket="history-sweep-" + backend)
+        if d > tol:
+            ctx.counterexample("diff:gaussian-vs-fock:history:%s" % sig_ops(spec), "gaussian and %s disagree beyond truncation (max |delta dm| = %.3g, tol %.3g; cutoff %d) on %s"
+                               % (backend, d, tol, cutoff, spec), data)
+
+
+# --- 4c. Engine.run(modes=...) for every ordered subset of a correlated 3-mode register --------------------------------------------
+
+def search_modes_sweep(ctx):
+    import itertools
+    rng = ctx.rng
+    n, cutoff = 3, 5
+    spec = {"n": n, "cmds": bc.weak_prefix(rng, n) + [bc.weak_cmd(rng, n, ["S2gate"]), bc.weak_cmd(rng, n, ["CXgate"])]}
+    fspec = dict(spec, cmds=[c for c in spec["cmds"] if c[0] != "ThermalLossChannel"])
+    for k in range(1, n + 1):
+        for modes in itertools.permutations(range(n), k):
+            modes = list(modes)
+            data = {"check": "gbr", "spec": spec, "hbar": 2.0, "modes": modes}
+            try:
+                gb, gr, br = gbr_flags(spec, 2.0, modes)
+                ctx.case(data, nontrivial=True, bucket="modes-sweep-gbr")
+                if gb or gr or br:
+                    who = "gaussian" if (gr and not br) else "bosonic" if (br and not gr) else "several"
+                    ctx.counterexample("diff:%s@modes:sweep" % who, "Engine.run(modes=%s): gaussian / bosonic reduced state differs from the reduced reference state (g-b %s, g-ref %s, b-ref %s) on %s"
+                                       % (modes, gb, gr, br, spec), data)
+            except Exception as e:
+                ctx.counterexample("gbr:raises:%s@modes" % type(e).__name__, "running %s raised %r" % (data, e), data)
+            data = {"check": "fock-pm", "spec": fspec, "cutoff": cutoff, "hbar": 2.0, "modes": modes}
+            try:
+                d = fock_pm_diff(fspec, cutoff, 2.0, modes)
+                ctx.case(data, nontrivial=True, bucket="modes-sweep-fock")
+                if d > 1e-8:
+                    ctx.counterexample("diff:fock-pure-vs-mixed@modes:sweep", "Engine.run(modes=%s): fock pure / mixed reduced states differ from each other or from the partial trace of the full "
+                                       "state (max |delta dm| = %.3g) on %s" % (modes, d, fspec), data)
+            except Exception as e:
+                ctx.counterexample("fock-pm:raises:%s@modes" % type(e).__name__, "running %s raised %r" % (data, e), data)
+
+
+# --- 5. bosonic vs fock: programs with non-Gaussian preparations (cat / GKP / Fock states) --------------------------------------
+
+def bosonic_fock_diff(spec, cutoff, hbar=2.0):
+    """Largest deviation over: first and second moments (all modes, incl. cross-correlations), the single-mode Wigner functions on a
+    3 x 3 grid, mean and variance of every photon number. Cat and GKP states are exact on the bosonic side; Fock(n) is the documented
+    approximation with quality parameter r = 0.05 (errors of order n r^2 ~ 1e-2)."""
+    np.random.seed(4321)
+    b = run_x(spec, "bosonic", hbar=hbar)
+    # the Fock simulator has no measurement-based squeezing: an ideal-ancilla MSgate (r_anc >= 5, eta = 1) is the squeezing gate it implements
+    ideal = [c for c in spec["cmds"] if c[0] == "MSgate"]
+    fspec = dict(spec, cmds=[["Sgate", [c[1][0], c[1][1]], c[2], False] if c[0] == "MSgate" else c for c in spec["cmds"]])
+    f = run_x(fspec, "fock-pure", cutoff, hbar)
+    n = f.num_modes
+    gb, gf = obs_h(b, hbar), fock_moments(f.dm(), n, cutoff)
+    d = max(np.abs(gb[0] - gf[0]).max(), np.abs(gb[1] - gf[1]).max())
+    s = math.sqrt(hbar / 2)
+    xv, pv = s * np.array([-1.1, 0.0, 0.8]), s * np.array([-0.7, 0.3, 1.2])
+    for m in range(n):
+        d = max(d, float(np.abs(np.asarray(b.wigner(m, xv, pv)) - np.asarray(f.wigner(m, xv, pv))).max()) * hbar / 2)
+        try:
+            nb, nf = b.mean_photon(m), f.mean_photon(m)
+            d = max(d, abs(nb[0] - nf[0]), abs(nb[1] - nf[1]))
+        except ValueError:
+            pass   # BosonicState.mean_photon refuses results whose rounding residue is "complex" (states.py, numerical strictness only)
+    tol = fock_tol(f, None, 1e-4)
+    kf = sum(c[1][0] for c in spec["cmds"] if c[0] == "Fock")
+    tol += 0.03 * kf
+    for c in ideal:
+        tol += (4 * math.exp(-2 * c[1][2]) + (0.0 if c[1][4] else 3 * math.exp(-c[1][2]) + 2e-4)) * math.exp(2 * abs(c[1][0])) * max(1.0, float(np.abs(gf[1]).max()))
+    if any(c[0] == "MeasureHomodyneSel" for c in spec["cmds"]):
+        tol += 6e-4 * (14.0 / cutoff) ** 8
+    return float(d), tol
+
+
+def bosonic_fock_spec(rng):
+    n = rng.choice([1, 2, 2, 2, 3])
+    cutoff = {1: 16, 2: 11, 3: 7}[n]
+    small = n == 3
+    cmds, heavy = [], 0
+    for m in rng.sample(range(n), n):
+        r = rng.random()
+        a = round(rng.uniform(0.2, 0.45 if small else 0.85), 3)
+        if r < 0.3:
+            cmds.append(["Catstate", [a, rng.choice([0.0, round(rng.uniform(-math.pi, math.pi), 3)]), rng.choice([0, 1, 0.5, round(rng.uniform(0, 2), 2)]), "complex"], [m], False])
+        elif r < 0.45 and heavy == 0:
+            cmds.append(["Catstate", [a, rng.choice([0.0, round(rng.uniform(-math.pi, math.pi), 3)]), rng.choice([0, 1]), "real"], [m], False])
+            heavy += 1
+        elif r < 0.55 and heavy == 0 and not small:
+            cmds.append(["GKP", [round(rng.uniform(0, math.pi), 3), round(rng.uniform(-math.pi, math.pi), 3), round(rng.uniform(0.7, 1.1), 3)], [m], False])
+            heavy += 1
+        elif r < 0.7:
+            cmds.append(["Fock", [rng.choice([1, 1, 2]) if not small else 1], [m], False])
+        elif r < 0.85:
+            cmds.append(bc.weak_cmd(rng, n, ["Squeezed", "Coherent", "DisplacedSqueezed", "Thermal"])[:2] + [[m], False])
+    if not any(c[0] in NONGAUSS_PREPS for c in cmds):
+        cmds.insert(0, ["Catstate", [0.4, 0.3, 0.5, "complex"], [rng.randrange(n)], False])
+        cmds = [cmds[0]] + [c for c in cmds[1:] if c[2] != cmds[0][2]]
+    names = [x for x in list(sfgen.GAUSSIAN_GATES) + ["LossChannel"] if x != "MZgate"]
+    n0 = len(cmds)
+    for _ in range(rng.randint(1, 4)):
+        c = bc.weak_cmd(rng, n, names)
+        cmds.append(c)
+    r = rng.random()
+    if r < 0.25:
+        c = msgate_cmd(rng, n, rng.choice(["limit", "single"]))
+        c[1][0] = round(c[1][0] * 0.4, 3)
+        cmds.insert(rng.randint(n0, len(cmds)), c)
+    elif r < 0.45 and n <= 2:
+        cmds.insert(rng.randint(len(cmds) - 1, len(cmds)), ["MeasureHomodyneSel", [round(rng.uniform(-2, 2), 3), round(rng.uniform(-0.4, 0.4), 3)], [rng.randrange(n)], False])
+        cutoff = max(cutoff, 14)
+    return {"n": n, "cmds": cmds}, cutoff
+
+
+def search_bosonic_fock(ctx):
+    rng = ctx.rng
+    for it in range(ctx.budget(30, 400)):
+        spec, cutoff = bosonic_fock_spec(rng)
+        hbar = rng.choice(HBARS) if it % 4 == 1 else 2.0
+        data = {"check": "bosonic-fock", "spec": spec, "cutoff": cutoff, "hbar": hbar}
+        try:
+            d, tol = bosonic_fock_diff(spec, cutoff, hbar)
+        except Exception as e:
+            ctx.counterexample("bosonic-fock:raises:%s" % type(e).__name__, "running %s raised %r" % (data, e), data)
+            continue
+        ctx.case(data, nontrivial=nontrivial(spec), bucket="bosonic-fock" + sig_cfg(hbar))
         if d > tol:
             def pred(s):
-                dd, tt = gauss_fock_diff(s, backend)
+                if not any(c[0] in NONGAUSS_PREPS for c in s["cmds"]):
+                    return False
+                dd, tt = bosonic_fock_diff(s, cutoff, hbar)
                 return dd > tt
             spec1 = shrink(spec, pred)
-            ctx.counterexample("diff:gaussian-vs-fock:%s" % sig_ops(spec1), "gaussian and %s disagree beyond truncation (max |delta dm| = %.3g, tol %.3g) on %s" % (backend, d, tol, spec1),
-                               {"check": "gauss-fock", "backend": backend, "spec": spec1})
+            ctx.counterexample("diff:bosonic-vs-fock%s:%s" % (sig_cfg(hbar), sig_ops(spec1)), "bosonic and fock simulators disagree beyond truncation / approximation "
+                               "(moments, single-mode Wigner functions, photon statistics: max deviation %.3g, tol %.3g; cutoff %d, hbar %s) on %s" % (d, tol, cutoff, hbar, spec1),
+                               dict(data, spec=spec1))
 
 
-def gauss_only(spec):
-    return any(c[0] == "PassiveChannel" for c in spec["cmds"])
+# --- 6. measurement-based squeezing (bosonic): average map vs the documented (X, Y) map; ideal-ancilla limit = Sgate ----------------
+
+def msgate_diff(spec, hbar=2.0):
+    """bosonic vs reference; the reference replaces an ideal-ancilla MSgate (r_anc >= 5, eta = 1) by the squeezing gate it implements."""
+    ideal = [c for c in spec["cmds"] if c[0] == "MSgate" and c[1][2] >= 5 and c[1][3] == 1.0]
+    ref_spec = dict(spec, cmds=[["Sgate", [c[1][0], c[1][1]], c[2], False] if c in ideal else c for c in spec["cmds"]])
+    r = reference(ref_spec)
+    np.random.seed(1234)   # single-shot maps sample the ancilla outcome; the ideal-ancilla output does not depend on it
+    b = obs_h(run_x(spec, "bosonic", hbar=hbar), hbar)
+    scale = max(1.0, float(np.abs(r[1]).max()))
+    tol = 1e-8 * scale
+    for c in ideal:
+        # average map: added noise ~ e^{-2 r_anc}; single shot: the outcome-dependent residue of the feed-forward is of relative size e^{-r_anc}
+        # (measured on the unchanged code: 9e-4 at r_anc = 5.5, 2e-4 at r_anc = 7), plus the finite-squeezing homodyne projector
+        tol += (4 * math.exp(-2 * c[1][2]) + (0.0 if c[1][4] else 3 * math.exp(-c[1][2]) + 2e-4)) * scale * math.exp(2 * abs(c[1][0]))
+    return max(np.abs(b[0] - r[0]).max(), np.abs(b[1] - r[1]).max()), tol
 
 
-def any_diff(spec):
-    g = bc.gauss_obs(bc.run(spec, "gaussian"))
-    r = reference(spec)
-    b = r if gauss_only(spec) else bc.gauss_obs(bc.run(spec, "bosonic"))
-    tol = (2e-5 if any(c[0] in sfgen.MEASURE_SEL for c in spec["cmds"]) else 1e-8) * max(1.0, float(np.abs(r[1]).max()))
-    return cmp_gauss(g, b, tol) or cmp_gauss(g, r, tol) or cmp_gauss(b, r, tol)
+def search_msgate(ctx):
+    rng = ctx.rng
+    for it in range(ctx.budget(30, 300)):
+        n = rng.randint(1, 3)
+        kind = ["avg", "limit", "single"][it % 3]
+        cmds = sfgen.entangling_prefix(rng, n) + [msgate_cmd(rng, n, kind)] + [sfgen.random_cmd(rng, n, list(sfgen.GAUSSIAN_GATES)) for _ in range(rng.randint(0, 2))]
+        spec = {"n": n, "cmds": cmds}
+        hbar = rng.choice(HBARS) if it % 4 == 3 else 2.0
+        data = {"check": "msgate", "spec": spec, "hbar": hbar}
+        try:
+            d, tol = msgate_diff(spec, hbar)
+        except Exception as e:
+            ctx.counterexample("msgate:raises:%s" % type(e).__name__, "running %s raised %r" % (data, e), data)
+            continue
+        ctx.case(data, nontrivial=nontrivial(spec), bucket="msgate-" + kind)
+        if d > tol:
+            spec1 = shrink(spec, lambda s: any(c[0] == "MSgate" for c in s["cmds"]) and (lambda x: x[0] > x[1])(msgate_diff(s, hbar)))
+            ctx.counterexample("diff:bosonic-msgate-%s%s" % (kind, sig_cfg(hbar)), "bosonic MSgate (%s) differs from %s by %.3g (tol %.3g; hbar %s) on %s"
+                               % (kind, "the documented average map" if kind == "avg" else "the squeezing gate it implements with an ideal ancilla", d, tol, hbar, spec1), dict(data, spec=spec1))
 
 
-def gaussian_prep_cmd(rng, n):
-    """Gaussian(V, r, decomp=False) on 1..3 modes listed in a random (possibly cyclic) order."""
-    from thewalrus.random import random_covariance
-    k = rng.randint(1, min(3, n))
-    modes = rng.sample(range(n), k)
-    np.random.seed(rng.randrange(2 ** 31))
-    V = random_covariance(k, hbar=2, pure=rng.random() < 0.5)
-    V = (V + V.T) / 2
-    r = [round(rng.uniform(-1, 1), 3) for _ in range(2 * k)]
-    return ["GaussianNoDecomp", [V.tolist(), r], modes, False]
+# --- 7. backend API used directly: reset() after a history with New / Del, then a second program -------------------------------------
+
+def api_run(backend, spec, opts, spec_before=None, reset_opts=None):
+    """begin_circuit, [apply spec_before, reset(**reset_opts)], apply spec: the state object of the backend."""
+    from strawberryfields.backends import load_backend
+    be = load_backend(backend)
+    comp = backend
+    be.begin_circuit(spec["n"], **opts)
+    seq = ([spec_before] if spec_before is not None else []) + [spec]
+    for i, sp in enumerate(seq):
+        prog = build(sp).compile(compiler=comp)
+        for cmd in prog.circuit:
+            cmd.op.apply(cmd.reg, be)
+        if spec_before is not None and i == 0:
+            be.reset(**reset_opts)
+    return be.state()
 
 
-def fock_pm_diff(spec, cutoff=7):
-    p = bc.run(spec, "fock-pure", cutoff)
-    m = bc.run(spec, "fock-mixed", cutoff)
-    return float(np.abs(p.dm() - m.dm()).max())
+def reset_diff(kind, specA, specB):
+    backend, opts, ropts = {
+        "gaussian": ("gaussian", {}, {}),
+        "bosonic": ("bosonic", {}, {}),
+        "fock-pure": ("fock", {"cutoff_dim": 6, "pure": True}, {"pure": True}),
+        "fock-pure-to-mixed": ("fock", {"cutoff_dim": 5, "pure": True}, {"pure": False, "cutoff_dim": 6}),
+        "fock-mixed-to-pure": ("fock", {"cutoff_dim": 7, "pure": False}, {"pure": True, "cutoff_dim": 6}),
+    }[kind]
+    a = api_run(backend, specB, opts, spec_before=specA, reset_opts=ropts)
+    fresh = dict(opts)
+    fresh.update(ropts)
+    b = api_run(backend, specB, fresh)
+    if backend == "fock":
+        if a.dm().shape != b.dm().shape:
+            return 1.0
+        return float(np.abs(a.dm() - b.dm()).max())
+    ga, gb = obs_h(a), obs_h(b)
+    if ga[0].shape != gb[0].shape:
+        return 1.0
+    return float(max(np.abs(ga[0] - gb[0]).max(), np.abs(ga[1] - gb[1]).max()))
 
 
-def gauss_fock_diff(spec, backend, cutoff=8):
-    f = bc.run(spec, backend, cutoff)
-    g = bc.run(spec, "gaussian")
-    n = spec["n"]
-    dg = np.asarray(g.reduced_dm(list(range(n)), cutoff=cutoff))
-    if dg.ndim == 2 and n > 1:
-        # pure Gaussian states come back as a (c^n, c^n) matrix (np.outer of the state vector): bring to (i0,j0,i1,j1,...)
-        dg = dg.reshape([cutoff] * (2 * n)).transpose([x for i in range(n) for x in (i, i + n)])
-    tol, tr = bc.fock_tol(f)
-    return float(np.abs(f.dm() - dg).max()), tol
+def search_reset(ctx):
+    rng = ctx.rng
+    kinds = ["gaussian", "bosonic", "fock-pure", "fock-pure-to-mixed", "fock-mixed-to-pure"]
+    for it in range(ctx.budget(15, 100)):
+        kind = kinds[it % len(kinds)]
+        n = rng.randint(2, 3)
+        names = GNAMES if not kind.startswith("fock") else FNAMES
+        specA = sfgen.random_history_spec(rng, names, n0=n, ncmds=rng.randint(3, 6), max_total=3, p_new=0.25, p_del=0.25, cmd_fn=bc.weak_cmd)
+        specA["cmds"] = [c for c in bc.weak_prefix(rng, n) if c[0] != "ThermalLossChannel"] + specA["cmds"]
+        specB = {"n": n, "cmds": [bc.weak_cmd(rng, n, names) for _ in range(rng.randint(1, 3))]}
+        data = {"check": "reset", "kind": kind, "specA": specA, "spec": specB}
+        try:
+            d = reset_diff(kind, specA, specB)
+        except Exception as e:
+            ctx.counterexample("reset:raises:%s:%s" % (type(e).__name__, kind), "backend API: %s raised %r" % (data, e), data)
+            continue
+        ctx.case(data, nontrivial=True, bucket="reset-" + kind)
+        if d > 1e-9:
+            ctx.counterexample("diff:reset:%s" % kind, "backend.reset() after a first program does not give the state of a fresh circuit (%s; max deviation of the state after the second program %.3g): %s"
+                               % (kind, d, data), data)
 
 
 def shrink(spec, pred):
     """Greedy removal of commands while the predicate keeps failing."""
-    cur = {"n": spec["n"], "cmds": list(spec["cmds"])}
+    cur = dict(spec, cmds=list(spec["cmds"]))
+    if "live" in cur:
+        return cur   # New / Del histories: indices depend on the history, keep as found
     changed = True
     while changed and len(cur["cmds"]) > 1:
         changed = False
         for i in range(len(cur["cmds"])):
-            cand = {"n": cur["n"], "cmds": cur["cmds"][:i] + cur["cmds"][i + 1:]}
+            cand = dict(cur, cmds=cur["cmds"][:i] + cur["cmds"][i + 1:])
             try:
                 if pred(cand):
                     cur = cand
@@ -445,21 +1221,38 @@ def shrink(spec, pred):
 
 def replay(ctx, data):
     d = data["data"]
-    if str(d.get("check", "")).startswith("bosonic"):
+    if str(d.get("check", "")).startswith("bosonic") and d.get("check") != "bosonic-fock":
         return bm.replay_bosonic(ctx, data)
     if d.get("check") == "fock-axes":
         return fa.replay_fock_axes(ctx, data)
     spec = d.get("spec")
-    if d.get("check") == "gbr":
-        r = any_diff(spec)
-        print("gaussian/bosonic/reference differ:", r)
-        return bool(r)
-    if d.get("check") == "fock-pm":
-        x = fock_pm_diff(spec)
-        print("max |dm_pure - dm_mixed| =", x)
-        return x > 1e-8
-    if d.get("check") == "gauss-fock":
-        x, tol = gauss_fock_diff(spec, d["backend"])
-        print("max |dm_fock - dm_gauss| =", x, "tol", tol)
-        return x > tol
+    hbar, modes, cutoff = d.get("hbar", 2.0), d.get("modes"), d.get("cutoff")
+    try:
+        if d.get("check") == "gbr":
+            r = any_diff(spec, hbar, modes)
+            print("gaussian/bosonic/reference differ:", r)
+            return bool(r)
+        if d.get("check") == "fock-pm":
+            x = fock_pm_diff(spec, cutoff or 7, hbar, modes)
+            print("max |dm_pure - dm_mixed| =", x)
+            return x > 1e-8
+        if d.get("check") == "gauss-fock":
+            x, tol = gauss_fock_diff(spec, d["backend"], cutoff or 8, hbar)
+            print("max |dm_fock - dm_gauss| =", x, "tol", tol)
+            return x > tol
+        if d.get("check") == "bosonic-fock":
+            x, tol = bosonic_fock_diff(spec, cutoff, hbar)
+            print("max deviation bosonic vs fock =", x, "tol", tol)
+            return x > tol
+        if d.get("check") == "reset":
+            x = reset_diff(d["kind"], d["specA"], spec)
+            print("max deviation after reset vs fresh circuit =", x)
+            return x > 1e-9
+        if d.get("check") == "msgate":
+            x, tol = msgate_diff(spec, hbar)
+            print("max deviation bosonic MSgate vs reference =", x, "tol", tol)
+            return x > tol
+    except Exception as e:
+        print("replay raised", repr(e))
+        return True
     return False
